@@ -626,13 +626,24 @@ func c19Descent(c *Ctx, parseNode, parseRule, tryGroup *FuncInfo) {
 		}
 		bad := ""
 		nAssign := 0
+		// a local that starts out as the parameter (`group := group`, as left by the expansion of a
+		// helper that received it) stands for the parameter
+		alias := map[types.Object]bool{}
+		ast.Inspect(parseNode.Decl.Body, func(n ast.Node) bool {
+			if as, ok := n.(*ast.AssignStmt); ok && as.Tok == token.DEFINE && len(as.Lhs) == 1 && len(as.Rhs) == 1 && isObj(info, as.Rhs[0], groupP) {
+				if o := objOf(info, as.Lhs[0]); o != nil {
+					alias[o] = true
+				}
+			}
+			return true
+		})
 		ast.Inspect(parseNode.Decl.Body, func(n ast.Node) bool {
 			as, ok := n.(*ast.AssignStmt)
 			if !ok {
 				return true
 			}
 			for _, l := range as.Lhs {
-				if !isObj(info, l, groupP) {
+				if !isObj(info, l, groupP) && !(alias[objOf(info, l)] && as.Tok != token.DEFINE) {
 					continue
 				}
 				nAssign++
@@ -670,6 +681,41 @@ func c19Descent(c *Ctx, parseNode, parseRule, tryGroup *FuncInfo) {
 			// the single guard is the boolean returned by tryParseGroup
 			if o, truth, single := soleGuard(info, gs); single {
 				ok = truth && definedByCall(info, groupLoop.Body, o, tryGroup.Obj)
+			}
+			// the same guard written as a skip: `g, rules, ok := tryParseGroup(…); if !ok { continue }`
+			if !ok && len(gs) == 0 {
+				nSkips, good := 0, 0
+				for _, st := range groupLoop.Body.List {
+					inside := false
+					ast.Inspect(st, func(m ast.Node) bool {
+						if m == ast.Node(self) {
+							inside = true
+						}
+						return !inside
+					})
+					if inside {
+						break
+					}
+					ifs, isIf := st.(*ast.IfStmt)
+					if !isIf {
+						if containsBranch(st) {
+							nSkips += 10
+						}
+						continue
+					}
+					if !containsBranch(ifs) {
+						continue
+					}
+					nSkips++
+					if u, isU := ast.Unparen(ifs.Cond).(*ast.UnaryExpr); isU && u.Op == token.NOT && ifs.Init == nil && ifs.Else == nil && len(ifs.Body.List) == 1 {
+						if br, isBr := ifs.Body.List[0].(*ast.BranchStmt); isBr && br.Tok == token.CONTINUE && br.Label == nil {
+							if o := objOf(info, u.X); o != nil && definedByCall(info, groupLoop.Body, o, tryGroup.Obj) {
+								good++
+							}
+						}
+					}
+				}
+				ok = nSkips == 1 && good == 1
 			}
 			if !ok {
 				why = "the descent into a recognised group's rules depends on more than tryParseGroup's verdict"
